@@ -99,7 +99,7 @@ Print Assumptions C13_exhausted_ends_reader_round_partial.
 Theorem C13_exhausted_ends_refuted : exists evs,
   let s := run (init 1 true [VJ; VU] VU) evs in
   status_ s = SRedialFailed /\ rounds s = [(2, false)] /\ notified s = 0 /\ dischooks s = 0 /\
-  quiescent s = true /\ nth_error (calls s) 0 = Some (mkCall false false (CDone RClosed)).
+  quiescent s = true /\ nth_error (calls s) 0 = Some (mkCall false false None (CDone RClosed)).
 Proof. exact (ex_intro _ w_exhausted w_exhausted_lemma). Qed.
 Print Assumptions C13_exhausted_ends_refuted.
 
@@ -131,10 +131,10 @@ Theorem C13_stale_reader_closes_new_connection_refuted : exists evs k,
   let s1 := run (init 2 true [] VA) (firstn k evs) in
   let s := run (init 2 true [] VA) evs in
   (status_ s1 = SOk /\ mem (conn s1) (lost s1) = false /\ index s1 = [IdUser] /\
-   nth_error (calls s1) 0 = Some (mkCall true false (CAwait (conn s1)))) /\
+   nth_error (calls s1) 0 = Some (mkCall true false (Some (conn s1)) (CAwait (conn s1)))) /\
   (status_ s = SOk /\ health s = true /\ conn s = conn s1 /\ mem (conn s) (lost s) = true /\
    index s = [] /\ okrounds s = 1 /\
-   nth_error (calls s) 0 = Some (mkCall true false (CDone RClosed))).
+   nth_error (calls s) 0 = Some (mkCall true false (Some (conn s1)) (CDone RClosed))).
 Proof. exact (ex_intro _ w_overlap (ex_intro _ 12 w_overlap_lemma)). Qed.
 Print Assumptions C13_stale_reader_closes_new_connection_refuted.
 
@@ -150,7 +150,7 @@ Theorem C13_later_call_recovers_partial : forall n uid p d s,
   let s' := run s (recover_events k) in
   status_ s' = SOk /\ health s' = true /\ okrounds s' = S (okrounds s) /\
   conn s' = fresh s /\ lock s' = None /\
-  nth_error (calls s') k = Some (mkCall false false (CAtPrelock (conn s'))) /\
+  nth_error (calls s') k = Some (mkCall false false None (CAtPrelock (conn s'))) /\
   readers s' = readers s ++ [(conn s', RReading)] /\
   rounds s' = rounds s ++ [(1, true)] /\ hooks s' = hooks s ++ [(true, VA)].
 Proof. exact one_call_recovers_lemma. Qed.
@@ -165,7 +165,7 @@ Theorem C13_later_call_fails_after_one_round : forall n uid p d s b,
   status_ s <> SOk -> plan s = [] -> pdef s = VU ->
   let k := length (calls s) in
   let s' := run s (fail_events k b) in
-  nth_error (calls s') k = Some (mkCall false false (CDone RClosed)) /\
+  nth_error (calls s') k = Some (mkCall false false None (CDone RClosed)) /\
   rounds s' = rounds s ++ [(S b, false)] /\ status_ s' = SRedialFailed /\ health s' = false /\
   lock s' = None /\ notified s' = notified s /\ index s' = index s.
 Proof. exact later_call_fails_lemma. Qed.
